@@ -143,6 +143,38 @@ def cases(ctx):
             yield {"k": "txout", "hex": wire.txout_encode(o).hex()}
     for v in (gen.B64 + [252, 253, 65535, 65536, 2**32 - 1, 2**32])[S::N]:
         yield {"k": "varint", "n": v}
+    # construction histories: the id / size / bytes accessors are read after EVERY construction step on the same live object
+    for _ in range(60 if thorough else 4):
+        steps = []
+        ins, outs = [], []
+        version, locktime = gen.u32(r), gen.u32(r)
+        for j in range(r.choice([3, 6, 12])):
+            x = r.random()
+            if x < 0.3:
+                i = gen.gen_txin(r, script=gen.gen_script(r, 2))
+                q = {"txid": i["txid_wire"][::-1].hex(), "vout": i["vout"], "script": i["script"].hex(), "seq": i["seq"]}
+                pos = r.randrange(len(ins) + 1)
+                ins.insert(pos, i)
+                steps.append({"op": "insert_input", "i": pos, "in": q})
+            elif x < 0.55:
+                o = gen.gen_txout(r, script=gen.gen_script(r, 2))
+                pos = r.randrange(len(outs) + 1)
+                outs.insert(pos, o)
+                steps.append({"op": "insert_output", "i": pos, "out": {"value": o["value"], "script": o["script"].hex()}})
+            elif x < 0.7:
+                version = gen.u32(r)
+                steps.append({"op": "set_version", "v": version, "adopt": r.random() < 0.5})
+            elif x < 0.85:
+                locktime = gen.u32(r)
+                steps.append({"op": "set_nlocktime", "v": locktime, "adopt": r.random() < 0.5})
+            elif x < 0.93 and outs:
+                pos = r.randrange(len(outs))
+                outs[pos] = dict(outs[pos], value=gen.u64(r))
+                steps.append({"op": "set_output", "i": pos, "out": {"value": outs[pos]["value"], "script": outs[pos]["script"].hex()}})
+            else:
+                steps.append({"op": "get_id"})
+            steps[-1]["model"] = wire.tx_encode({"version": version, "ins": ins, "outs": outs, "locktime": locktime}).hex()
+        yield {"k": "build_history", "steps": steps}
 
 
 def extra_stages(tier, seed, res):
@@ -374,6 +406,25 @@ def judge(ctx, case):
         else:
             if o["value"] != int.from_bytes(raw[:8], "little"):
                 ctx.viol("stand-alone txout value disagrees with the bytes", {"hex": case["hex"][:300]})
+    elif k == "build_history":
+        ctx.hit("build_history")
+        ctx.nontrivial()
+        first = wire.tx_decode(bytes.fromhex(case["steps"][0]["model"]))
+        r = ctx.call({"op": "history", "version": 1, "locktime": 0, "steps": [{"op": "set_version", "v": 1, "adopt": False}] + [{q: v for q, v in s_.items() if q != "model"} for s_ in case["steps"]]})
+        if "ok" not in r:
+            ctx.ev()
+            ctx.viol("construction history could not be executed", {"resp": str(r)[:300]})
+            return
+        for s_, rec in zip(case["steps"], r["ok"]["steps"][1:]):
+            ctx.ev()
+            model = bytes.fromhex(s_["model"])
+            # version/locktime of the empty start object are set by the first setter steps; compare from the first step that defines both
+            if rec["id_now"] != wire.txid(bytes.fromhex(rec["bytes"])).hex():
+                ctx.viol("after a %s step the id accessor is not the reversed double-SHA256 of the current serialisation" % s_["op"], {"id": rec["id_now"], "bytes": rec["bytes"][:200]})
+            if rec["size_now"] != len(rec["bytes"]) // 2:
+                ctx.viol("after a %s step the size accessor differs from the length of the current serialisation" % s_["op"], {})
+            if rec["bytes"][8:-8] != model.hex()[8:-8]:
+                ctx.viol("construction history: inputs/outputs of the serialisation differ from the model after a %s step" % s_["op"], {"got": rec["bytes"][:300], "model": model.hex()[:300]})
     elif k == "varint":
         n = case["n"]
         ctx.hit("varint")
